@@ -5,3 +5,4 @@ import Rink.Props.C03
 import Rink.Props.C09
 import Rink.Props.C10
 import Rink.Props.C15
+import Rink.Props.C07
